@@ -95,6 +95,13 @@ type c6Peer struct {
 
 func (*c6Peer) M1() {}
 
+// c6Z collects zero-size components (all of them live at one address, yet each is a component).
+type c6Z struct {
+	All []scen.IZ `wire:",required=false"`
+	One scen.IZ   `wire:",required=false"`
+	Any []any     `wire:",required=false"`
+}
+
 var c6Kinds = []string{"PA", "F1", "F2", "F12", "SPA", "S1", "S2", "FnP", "Fn1", "FnA", "FnAB", "FnS", "FnB"}
 
 func c6Pred(kind string) func(t string) bool {
@@ -132,7 +139,8 @@ type c06Case struct {
 	Mode    int         `json:"mode,omitempty"`
 	Bound   int         `json:"bound,omitempty"`
 	Choices []int       `json:"choices,omitempty"`
-	Peers   []string    `json:"peer_names,omitempty"` // family "peers": names of the c6Peer holders ("" = default name)
+	Peers   []string    `json:"peer_names,omitempty"`     // family "peers": names of the c6Peer holders ("" = default name)
+	Zero    int         `json:"zero_size_mask,omitempty"` // family "zero-size": which of Z1,Z2,Z3 are registered
 }
 
 func c06Pops(variants [][]string, yield func([]scen.Inst) bool) {
@@ -186,6 +194,14 @@ func c06Gen(c *core.Ctx) func(yield func(c06Case) bool) {
 		})
 		if !ok {
 			return
+		}
+		// zero-size components
+		for z := 1; z < 8; z++ {
+			for _, desc := range []bool{false, true} {
+				if ok = yield(c06Case{Zero: z, Desc: desc}); !ok {
+					return
+				}
+			}
 		}
 		// holders that are providers of their own points' types
 		for _, peers := range [][]string{{"p0"}, {""}, {"p0", "p1"}, {"", "p1"}, {"p0", "p1", "p2"}, {"p0", "", "p2"}} {
@@ -288,9 +304,22 @@ func c06Run(c *core.Ctx) {
 					user[pn] = true
 				}
 			}
+			var zh *c6Z
+			var zwant []string
+			if cs.Zero != 0 {
+				for i, z := range []any{&scen.Z1{}, &scen.Z2{}, &scen.Z3{}} {
+					if cs.Zero>>i&1 == 1 {
+						comps = append(comps, z)
+						zwant = append(zwant, fmt.Sprintf("Z%d", i+1))
+						user[fmt.Sprintf("verif/internal/scen/Z%d", i+1)] = true
+					}
+				}
+				zh = &c6Z{}
+				comps = append(comps, zh)
+			}
 			var call *c6All
 			var get func() any
-			if len(cs.Peers) > 0 {
+			if len(cs.Peers) > 0 || cs.Zero != 0 {
 			} else if cs.Kind == "" {
 				call = &c6All{}
 				comps = append(comps, call)
@@ -361,6 +390,34 @@ func c06Run(c *core.Ctx) {
 					return false
 				}
 				return true
+			}
+			if cs.Zero != 0 {
+				if o.Err != nil {
+					c.Outcome("zero/error")
+					c.Report(key("zero-error"), "spurious-error", "all points are optional but start-up failed: "+scen.FirstLine(o.Err), cc)
+					return
+				}
+				c.Outcome(fmt.Sprintf("zero/ok/%d", len(zwant)))
+				var got []string
+				for _, z := range zh.All {
+					got = append(got, z.MZ())
+				}
+				if !slice("[]IZ (zero-size components)", got, zwant) {
+					return
+				}
+				var gotAny []string
+				for _, x := range zh.Any {
+					if z, isZ := x.(scen.IZ); isZ {
+						gotAny = append(gotAny, z.MZ())
+					}
+				}
+				if !slice("[]any (zero-size components among it)", gotAny, zwant) {
+					return
+				}
+				if zh.One == nil {
+					c.Report(key("zero-one"), "wrong-or-missing", fmt.Sprintf("single IZ point is empty although %v are admissible", zwant), cc)
+				}
+				return
 			}
 			if len(cs.Peers) > 0 {
 				if o.Err != nil {
